@@ -284,6 +284,33 @@ def _decorate_namespace_function(
         contract_checker.__postconditions__ = postconditions  # type: ignore
 
 
+def _is_accessor_of_base_or_ancestor(
+    base: type, key: str, func: Callable[..., Any], accessor_name: str
+) -> bool:
+    """Check whether ``func`` is the very accessor of the property ``key`` of the ``base`` or of one of its ancestors."""
+    checker = icontract._checkers.find_checker(func=func)
+
+    for klass in base.__mro__:
+        a_property = vars(klass).get(key, None)
+        if not isinstance(a_property, property):
+            continue
+
+        accessor = getattr(a_property, accessor_name)
+        if accessor is None:
+            continue
+
+        if accessor is func:
+            return True
+
+        if (
+            checker is not None
+            and icontract._checkers.find_checker(func=accessor) is checker
+        ):
+            return True
+
+    return False
+
+
 def _decorate_namespace_property(
     bases: List[type], namespace: MutableMapping[str, Any], key: str
 ) -> None:
@@ -311,6 +338,9 @@ def _decorate_namespace_property(
         # True if one of the bases provides the function without any precondition, *i.e.*, accepts all the input
         base_accepts_all = False
 
+        # True if the accessor is the very accessor of one of the bases
+        inherited_as_is = False
+
         for base in bases:
             if _base_provides(base, key):
                 base_property = getattr(base, key)
@@ -321,10 +351,13 @@ def _decorate_namespace_property(
                 )
 
                 if func == value.fget:
+                    accessor_name = "fget"
                     base_func = getattr(base, key).fget
                 elif func == value.fset:
+                    accessor_name = "fset"
                     base_func = getattr(base, key).fset
                 elif func == value.fdel:
+                    accessor_name = "fdel"
                     base_func = getattr(base, key).fdel
                 else:
                     raise NotImplementedError(
@@ -337,15 +370,15 @@ def _decorate_namespace_property(
                 # Check if there is a checker function in the base class
                 base_contract_checker = icontract._checkers.find_checker(func=base_func)
 
-                if base_func is func or (
-                    base_contract_checker is not None
-                    and base_contract_checker
-                    is icontract._checkers.find_checker(func=func)
+                if _is_accessor_of_base_or_ancestor(
+                    base=base, key=key, func=func, accessor_name=accessor_name
                 ):
                     # The accessor has not been re-defined (*e.g.*, only the setter of an inherited property has been
-                    # extended with ``@Base.some_property.setter``). It already carries the contracts of the base;
-                    # collapsing them once more would duplicate them on the checker of the *base* accessor.
-                    continue
+                    # extended with ``@Base.some_property.setter``). It is the very function of the base and keeps
+                    # its contracts as they are; collapsing the contracts of the bases into it would change the
+                    # contracts of the *base* accessor.
+                    inherited_as_is = True
+                    break
 
                 bases_have_func = True
 
@@ -362,6 +395,9 @@ def _decorate_namespace_property(
                     or not base_contract_checker.__preconditions__
                 ):
                     base_accepts_all = True
+
+        if inherited_as_is:
+            continue
 
         # The preconditions of the bases are OR'ed. If one of the bases accepts all the input, so must this function.
         if base_accepts_all:
